@@ -87,8 +87,8 @@ func (b bScen) scenario() *sched.Scenario {
 					if len(s.viols) > 0 {
 						break
 					}
-					if f == "TO" && !s.timerArmed() {
-						continue
+					if !contains(s.Ops(), f) {
+						continue // not enabled in the state reached (e.g. TO without a timer, -lastsent without a consumed identifier)
 					}
 					x.Obs("S:%s=%s", f, s.Apply(f))
 				}
@@ -279,6 +279,15 @@ func reportFailures(run *report.Run, b bScen, fs []sched.Failure) {
 			run.Violation(rv)
 		}
 	}
+}
+
+func contains(xs []string, x string) bool {
+	for _, y := range xs {
+		if y == x {
+			return true
+		}
+	}
+	return false
 }
 
 func strs(v any) []string {
